@@ -321,7 +321,13 @@ func (f CallableFunctionSchema) Call(arguments []any) (any, error) {
 	for i := 0; i < gotArgs; i++ {
 		args[i] = reflect.ValueOf(arguments[i])
 	}
-	result := f.Handler.Call(args)
+	var result []reflect.Value
+	if f.Handler.Type().IsVariadic() {
+		// The schema describes the variadic parameter as a list, so the last argument already is the slice.
+		result = f.Handler.CallSlice(args)
+	} else {
+		result = f.Handler.Call(args)
+	}
 	gotReturns := len(result)
 	expectedReturnVals := 0
 	if f.StaticOutputValue != nil || f.DynamicTypeHandler != nil {
